@@ -158,17 +158,57 @@ def run_suite(pid, suite, seed, n, tag="main", extra=None):
     rc, out, dt_h = sh(cmd, timeout=7200)
     if rc != 0:
         return {"error": "harness failed", "log": out[-4000:], "dir": d}
-    with open(os.path.join(d, "ops.in"), "rb") as f:
-        rc, _, dt_m = (lambda p: (p.returncode, None, 0))(
-            subprocess.run([MODEL_EXE], stdin=f, stdout=open(os.path.join(d, "model.out"), "wb"),
-                           stderr=subprocess.STDOUT, timeout=7200))
+    rc, log = run_model_parallel(d)
     if rc != 0:
-        return {"error": "lean driver failed", "log": open(os.path.join(d, "model.out")).read()[-4000:], "dir": d}
+        return {"error": "lean driver failed", "log": log[-4000:], "dir": d}
     res = compare(d)
     res["dir"] = d
     res["stats"] = load_json(os.path.join(d, "stats.json"))
     res["wall_harness_s"] = dt_h
     return res
+
+
+def run_model_parallel(d, jobs=16):
+    """Splits ops.in at `case` boundaries into chunks (every case is self-contained), runs one Lean
+    driver process per chunk concurrently and concatenates the outputs in order."""
+    lines = open(os.path.join(d, "ops.in"), encoding="utf-8").read().split("\n")
+    starts = [i for i, l in enumerate(lines) if l.startswith("case ")]
+    if not starts:
+        starts = [0]
+    starts[0] = 0
+    # balance by size: greedy cut points
+    total = len(lines)
+    target = max(1, total // jobs)
+    cuts = [0]
+    for s_ in starts[1:]:
+        if s_ - cuts[-1] >= target and len(cuts) < jobs:
+            cuts.append(s_)
+    cuts.append(total)
+    procs = []
+    for k in range(len(cuts) - 1):
+        ip = os.path.join(d, f"chunk{k}.in")
+        op = os.path.join(d, f"chunk{k}.out")
+        with open(ip, "w", encoding="utf-8") as f:
+            f.write("\n".join(lines[cuts[k]:cuts[k + 1]]) + "\n")
+        procs.append((subprocess.Popen([MODEL_EXE], stdin=open(ip, "rb"), stdout=open(op, "wb"),
+                                       stderr=subprocess.STDOUT), ip, op))
+    rc = 0
+    log = ""
+    with open(os.path.join(d, "model.out"), "wb") as out:
+        for p, ip, op in procs:
+            try:
+                r = p.wait(timeout=7200)
+            except subprocess.TimeoutExpired:
+                p.kill()
+                r = 124
+            data = open(op, "rb").read()
+            if r != 0:
+                rc = r
+                log += data.decode("utf-8", "replace")[-2000:]
+            out.write(data)
+            os.remove(ip)
+            os.remove(op)
+    return rc, log
 
 
 def compare(d):
@@ -187,6 +227,8 @@ def compare(d):
     spec_fail = []
     compared = 0
     spec_ok = 0
+    inconclusive = 0
+    pairs_total = 0
     distinct = set()
     for i, line in enumerate(ops):
         if line.startswith("case "):
@@ -206,6 +248,11 @@ def compare(d):
                 mi += 1
                 if v.startswith("S ok"):
                     spec_ok += 1
+                    m_ = re.search(r"pairs=(\d+)", v)
+                    if m_:
+                        pairs_total += int(m_.group(1))
+                elif v.startswith("S inconclusive"):
+                    inconclusive += 1
                 else:
                     spec_fail.append({"case": case, "op": last_op, "op_line": last_op_idx, "real": exp, "spec": v})
         elif line and not line.startswith("#"):
@@ -214,7 +261,7 @@ def compare(d):
     if mi != len(model):
         mismatches.append({"case": case, "op": "<end>", "op_line": len(ops), "real": "<end of expectations>",
                            "model": f"{len(model) - mi} extra model lines, first: {model[mi] if mi < len(model) else ''}"})
-    return {"compared": compared, "mismatches": mismatches, "spec_fail": spec_fail, "spec_ok": spec_ok,
+    return {"compared": compared, "mismatches": mismatches, "spec_fail": spec_fail, "spec_ok": spec_ok, "inconclusive": inconclusive, "pairs_total": pairs_total,
             "distinct": len(distinct), "case_start": case_start, "ops": ops}
 
 
